@@ -3,7 +3,7 @@
 #   demo passes on the clean tree, patch applies, unedited suite passes with it, demo fails with it.
 # usage: confirm_seeded.sh <worktree> <id>     (writes <worktree>/OUT/confirm.json)
 WT=$1; ID=$2
-export CARGO_NET_OFFLINE=true CARGO_TARGET_DIR=/tmp/wt/target-shared
+export CARGO_NET_OFFLINE=true CARGO_TARGET_DIR=${CONFIRM_TARGET_DIR:-$WT/target}
 cd $WT || exit 2
 git checkout -q -- . 2>/dev/null
 DEMO=$(ls OUT/demo/run_demo.sh 2>/dev/null)
